@@ -22,6 +22,12 @@ Keyword spellings go through the commanded list, directly
 (`context(name, engine, receiver)(*args, **kwargs)`) and, for the small
 families, also as parsed text (`foo(pa(0), y => pb('y'))`).
 
+A second, small space mixes @no_kwargs overloads (among them one taking
+*rules typed MappingRule) with ordinary ones in one layer: how `name => v` is
+read must not depend on who is enumerated first.  There the keyword arguments
+are handed over as the parser does it (positional mapping-rule expressions),
+directly and through text.
+
 Oracle (differential): one outcome - payload tag + evaluation log + received
 arguments, or error class - per (family, call spelling), whatever the order,
 driver and path.
@@ -51,7 +57,10 @@ BOUNDS = {
              'positional spelling: all n! orders as commanded list and as registration order into the real set for every family, '
              'all MultiContext splits for 1 parameter n <= 3 and 2 parameters n = 2 (not for the e pairs); '
              'keyword spellings (last argument / all arguments by keyword): all n! orders as commanded list for every family, '
-             'also through text for n = 2 and for 1 parameter n = 3',
+             'also through text for n = 2 and for 1 parameter n = 3; '
+             '@no_kwargs mixing: multisets of 2-3 of 5 @no_kwargs shapes [*r:Rule, (), x:Any, x:A, (x,y)] and 5 ordinary shapes '
+             '[(), x:Any, x:A, (x:Any, y:A=default), (x,y)] with at least one @no_kwargs x 11 calls (empty, positional, k => v, '
+             'unknown keyword) x all orders x {list, set, text}',
     'thorough': 'as quick plus MultiContext splits for every family of quick, method syntax for 2 parameters n = 3, '
                 'all 11 value pairs containing e with lazy signatures, and 2 parameters n = 4: all sets of 4 distinct eager signatures '
                 'for the value pairs over {d, null}, multisets of 4 for (d, d) (list and set drivers, all spellings)',
@@ -140,9 +149,15 @@ def base():
 
 
 def outcomes(sigs, values, method, drivers, spelling='pos'):
-    """{(driver, detail, order): observation} for all orders of the family."""
     call = call_for(values, method, spelling)
-    ovs = [overload(i, s, values) for i, s in enumerate(sigs)]
+    ovs = tuple(overload(i, s, values) for i, s in enumerate(sigs))
+    return observe_orders(ovs, call, drivers), ((False, ovs),), call
+
+
+def observe_orders(ovs, call, drivers, rules=False):
+    """{(driver, detail, order): observation} for all enumeration orders of the
+    overloads `ovs` of one layer.  rules=True: keyword arguments travel as the
+    parser hands them over (positional `name => expr` expressions)."""
     fds = [R.definition(o, R.CLASSES6) for o in ovs]
     n = len(fds)
     perms = list(itertools.permutations(range(n)))
@@ -153,7 +168,7 @@ def outcomes(sigs, values, method, drivers, spelling='pos'):
             ctx.register_function(fd)
         for p in perms:
             ctx.command = [fds[i] for i in p]
-            out[('list', '', p)] = R.direct(ctx, call, R.VALUES6)
+            out[('list', '', p)] = R.direct(ctx, call, R.VALUES6, rules)
             if 'text' in drivers:
                 out[('text', '', p)] = R.textual(ctx, call)
     if 'multi' in drivers:
@@ -175,8 +190,8 @@ def outcomes(sigs, values, method, drivers, spelling='pos'):
                 ctx.register_function(cfds[i])
             if list(ctx.get_functions('foo')[0]) != [cfds[i] for i in p]:
                 raise AssertionError('harness: the set does not iterate in insertion order')
-            out[('set', '', p)] = R.direct(ctx, call, R.VALUES6)
-    return out, ((False, tuple(ovs)),), call
+            out[('set', '', p)] = R.direct(ctx, call, R.VALUES6, rules)
+    return out
 
 
 SINGLE_PASS_KEY = ('order-dependent winner: single left-to-right pass in choose_overload '
@@ -203,14 +218,24 @@ def judge(res, sigs, values, method, drivers):
 def judge_spelling(res, sigs, values, method, drivers, spelling):
     res.case((sigs, values, method, spelling))
     obs, layers, call = outcomes(sigs, values, method, drivers, spelling)
+    size = (len(sigs), len(values), method, spelling != 'pos',
+            sum(ORDER.index(t) if t in ORDER else 9 for sg in sigs for t in sg), values)
+    verdict(res, obs, layers, call, drivers, '',
+            {'signatures': sigs, 'values': values, 'method': method, 'spelling': spelling, 'drivers': sorted(drivers),
+             'text': R.text_of(call)}, size)
+
+
+def verdict(res, obs, layers, call, drivers, note, case, size):
+    """One outcome per (family, call) over all orders, drivers and paths."""
     res.evaluations += len(obs)
     res.transitions += len(obs)
     res.nontrivial += 1
+    ovs = layers[0][1]
+    spelled = 'keyword' if call[2] else 'positional'
     distinct = sorted(set(obs.values()), key=repr)
-    res.outcomes['n=%d %s %s' % (len(sigs), 'positional' if spelling == 'pos' else 'keyword', classes(distinct))] += 1
+    res.outcomes['n=%d %s%s %s' % (len(ovs), spelled, note and ' ' + note, classes(distinct))] += 1
     if len(distinct) == 1:
         return
-    ovs = layers[0][1]
     explained = all(
         o == _expected(((False, tuple(ovs[i] for i in p)),), call, (M.SINGLE_PASS,))
         for (driver, detail, p), o in obs.items())
@@ -222,12 +247,9 @@ def judge_spelling(res, sigs, values, method, drivers, spelling):
     else:
         varying = sorted(d for d in drivers if len(set(o for k, o in obs.items() if k[0] == d)) > 1)
         where = 'every driver' if varying == sorted(drivers) else '+'.join(varying) or 'no single driver (the drivers disagree with each other)'
-        key = 'order-dependent outcome (not the single-pass pattern): %s; %s arguments; varies within %s' % (
-            classes(distinct), 'positional' if spelling == 'pos' else 'keyword', where)
-    size = (len(sigs), len(values), method, spelling != 'pos',
-            sum(ORDER.index(t) if t in ORDER else 9 for sg in sigs for t in sg), values)
-    res.fail(key, {'signatures': sigs, 'values': values, 'method': method, 'spelling': spelling, 'drivers': sorted(drivers),
-                   'text': R.text_of(call)},
+        key = 'order-dependent outcome (not the single-pass pattern)%s; %s arguments%s; varies within %s' % (
+            '' if note else ': ' + classes(distinct), spelled, note and ', ' + note, where)
+    res.fail(key, case,
              'outcomes by order: %s; model (most specific of all matches): %r'
              % ('; '.join('%s <- %s' % (k, ' '.join(v[:8]) + (' ...' if len(v) > 8 else '')) for k, v in sorted(by.items())),
                 _expected(layers, call)[0]), size=size)
@@ -281,6 +303,51 @@ def families(tier):
     return out
 
 
+# @no_kwargs overloads next to ordinary ones: how `name => v` is read must not depend on who is enumerated first
+def P(name, kind, typ, nullable=False, default=False):
+    return (name, kind, typ, nullable, default)
+
+
+NO_KWARGS_SHAPES = [(P('r', 'varargs', 'Rule'),), (), (P('x', 'pos', 'Any'),), (P('x', 'pos', 'A'),),
+                    (P('x', 'pos', 'Any'), P('y', 'pos', 'Any'))]
+ORDINARY_SHAPES = [(), (P('x', 'pos', 'Any'),), (P('x', 'pos', 'A'),), (P('x', 'pos', 'Any'), P('y', 'pos', 'A', False, True)),
+                   (P('x', 'pos', 'Any'), P('y', 'pos', 'Any'))]
+A_, N_, ONE = ('var', 'a'), ('var', 'n'), ('const', 1)
+MIXED_CALLS = [(None, (), ()), (None, (A_,), ()), (None, (N_,), ()), (None, (ONE,), ()), (None, (A_, A_), ()),
+               (None, (), (('x', A_),)), (None, (), (('x', ONE),)), (None, (A_,), (('y', A_),)),
+               (None, (), (('x', A_), ('y', A_))), (None, (), (('zz', A_),)), (None, (A_,), (('zz', A_),))]
+
+
+def mixed_families():
+    """Multisets of 2-3 shapes of which at least one is @no_kwargs (all-@no_kwargs families included)."""
+    shapes = [(s, True) for s in NO_KWARGS_SHAPES] + [(s, False) for s in ORDINARY_SHAPES]
+    for n in (2, 3):
+        for fam in itertools.combinations_with_replacement(range(len(shapes)), n):
+            if any(shapes[i][1] for i in fam):
+                yield fam, tuple(('t%d' % k, shapes[i][0], 'function', shapes[i][1]) for k, i in enumerate(fam))
+
+
+def job_mixed(tier):
+    res = Result()
+    drivers = ('list', 'set', 'text')
+    for fam, ovs in mixed_families():
+        note = '@no_kwargs next to ordinary overloads' if len(set(o[3] for o in ovs)) > 1 else 'all @no_kwargs'
+        for ci, call in enumerate(MIXED_CALLS):
+            res.case(('mixed', fam, ci))
+            obs = observe_orders(ovs, call, drivers, rules=True)
+            verdict(res, obs, ((False, ovs),), call, drivers, note,
+                    {'overloads': ovs, 'call': call, 'drivers': sorted(drivers), 'text': R.text_of(call)},
+                    (len(ovs), 3, False, bool(call[2]), sum(fam), ci))
+            if call[2]:
+                # the same call through the host API with python keyword arguments (not mapping-rule expressions)
+                res.case(('mixed-pykw', fam, ci))
+                obs = observe_orders(ovs, call, ('list', 'set'), rules=False)
+                verdict(res, obs, ((False, ovs),), call, ('list', 'set'), note + ', python **kwargs through the host API',
+                        {'overloads': ovs, 'call': call, 'drivers': ['list', 'set'], 'text': R.text_of(call), 'pykw': True},
+                        (len(ovs), 3, False, True, sum(fam), ci))
+    return res
+
+
 def job(tier, k, of):
     res = Result()
     fams = families(tier)[k::of]
@@ -295,13 +362,22 @@ def job(tier, k, of):
 
 def jobs(tier, seed):
     of = 32 if tier == 'quick' else 64
-    return [('families-%02d' % k, 'job', (tier, k, of)) for k in range(of)]
+    return [('families-%02d' % k, 'job', (tier, k, of)) for k in range(of)] + [('mixed-no-kwargs', 'job_mixed', (tier,))]
+
+
+def _tuples(v):
+    return tuple(_tuples(x) for x in v) if isinstance(v, list) else v
 
 
 def replay(case):
-    sigs = tuple(tuple(s) for s in case['signatures'])
-    values = tuple(case['values'])
-    obs, layers, call = outcomes(sigs, values, case['method'], set(case['drivers']), case.get('spelling', 'pos'))
+    if 'overloads' in case:
+        ovs, call = _tuples(case['overloads']), _tuples(case['call'])
+        layers = ((False, ovs),)
+        obs = observe_orders(ovs, call, set(case['drivers']), rules=True)
+    else:
+        sigs = tuple(tuple(s) for s in case['signatures'])
+        values = tuple(case['values'])
+        obs, layers, call = outcomes(sigs, values, case['method'], set(case['drivers']), case.get('spelling', 'pos'))
     table = {}
     for (driver, detail, p), o in sorted(obs.items()):
         table['%s%s:%s' % (driver, detail and '/' + detail, ''.join(map(str, p)))] = repr(o)
